@@ -17,6 +17,7 @@ RULE = (
     "margins, memory layouts C / Fortran / reversed views / strided views of a larger buffer / transposed views / read-only. "
     "Only cases with a uniquely determined matching are judged (a flip changes the scan order and thereby the tie-break). "
     "Non-trivial = judged case with at least one instance on both sides; distinct = hash of (base arrays, transformation, configuration)."
+    ' Further families: prediction and reference in different layouts; nearly tied candidates under flips; bars through the whole field of view (crops above 32^3 voxels) under padding; instance counts around 15 x 16 and 255 x 256 under flips, transposition and padding.'
 )
 ASSUMPTIONS = ["merge matcher with ASSD is excluded (a flip changes float summation order and can flip an exactly-equal merge decision)", "base case judged against the reference model by C01"]
 MINIMUM = {"C10.judged": 3000, "f:C10.layout": 300, "f:C10.pad": 300, "f:C10.flip": 300, "f:C10.perm": 200}
